@@ -274,12 +274,16 @@ def scenarios(sim, cls):
             for q in (False, True):
                 for vts in (['INTEGER'], ['STRING', 'DOUBLE'],
                             ['LONG', 'SINGLE', 'STRING']):
-                    add(f'same={same} q={q} {vts}',
-                        ANode(sim, cls, same_line=same, prompt_question=q,
-                              prompt=ANode(sim, 'StringLiteral',
-                                           value='p'),
-                              var_list=[L(t, name=f'v{i}')
-                                        for i, t in enumerate(vts)]))
+                    # the prompt text varies too: the code must not depend
+                    # on it except through the literal itself
+                    for ptxt in ('p', ''):
+                        add(f'same={same} q={q} {vts} prompt={ptxt!r}',
+                            ANode(sim, cls, same_line=same,
+                                  prompt_question=q,
+                                  prompt=ANode(sim, 'StringLiteral',
+                                               value=ptxt),
+                                  var_list=[L(t, name=f'v{i}')
+                                            for i, t in enumerate(vts)]))
     elif cls == 'LocateStmt':
         for r, c, cu in itertools.product([None] + list(TY), repeat=3):
             add(f'{r},{c},{cu}', ANode(
@@ -303,7 +307,8 @@ def scenarios(sim, cls):
     elif cls == 'PrintStmt':
         sep = lambda s: ANode(sim, 'PrintSep', sep=s)
         shapes = [[], ['e'], ['e', ';'], ['e', ',', 'e'], [';'],
-                  [',', ','], ['e', ';', 'e', ';']]
+                  [',', ','], ['e', ';', 'e', ';'], ['e', ';', ',', 'e'],
+                  ['e', ',', ','], [';', ';'], [',', ';', 'e']]
         for fmt in [None] + list(TY):
             for shape in shapes:
                 for t in TY:
